@@ -349,6 +349,49 @@ pub fn propagation_attack(
     Ok(None)
 }
 
+/// Single-wire perturbation + propagation: for `count` witnesses of op `op`
+/// (chosen by a deterministic function of `salt`) and a few replacement values
+/// each, fix that wire and the gadget's `inputs`, re-solve the rest, and ask
+/// `claim` whether a completed assignment contradicts the property. Returns
+/// the number of attempts and the first contradiction.
+pub fn wire_perturbation_attacks(
+    g: &Gad,
+    op: usize,
+    inputs: &[usize],
+    count: usize,
+    salt: u64,
+    seed: u64,
+    what: &str,
+    claim: impl Fn(&[F]) -> bool,
+) -> Result<(u64, Option<String>), Fail> {
+    let (start, end) = g.op_wits(op);
+    if end <= start {
+        return Ok((0, None));
+    }
+    let mut tried = 0u64;
+    let one = F::one();
+    for k in 0..count {
+        let h = crate::runner::splitmix(salt ^ (k as u64).wrapping_mul(0x9E37_79B9_7F4A_7C15));
+        let w = start + (h % (end - start) as u64) as usize;
+        if inputs.contains(&w) {
+            continue;
+        }
+        let cur = g.wit[w];
+        let vals = [cur + one, cur - one, F::zero(), one, cur + cur, F::from(h >> 32)];
+        let val = vals[((h >> 16) % vals.len() as u64) as usize];
+        if val == cur {
+            continue;
+        }
+        let mut pins: Vec<(usize, F)> = inputs.iter().map(|i| (*i, g.wit[*i])).collect();
+        pins.push((w, val));
+        tried += 1;
+        if let Some(msg) = propagation_attack(g, &pins, seed, &format!("{what} (wire #{} of the gadget set to another value)", w - start), &claim)? {
+            return Ok((tried, Some(msg)));
+        }
+    }
+    Ok((tried, None))
+}
+
 // ------------------------------------------------------------------
 // integer helpers
 
